@@ -148,7 +148,7 @@ def names(prop):
 
 
 # ---------------------------------------------------------------- liveness (C05 / C06)
-LIVE_RX = re.compile(r"blocked-op-enabled-at-quiescence sig=(\S*)")
+LIVE_RX = re.compile(r"(?:blocked-op-enabled-at-quiescence|pending-enabled-not-woken) sig=(\S*)")
 
 def liveness_tie(ctx, name, cmd, drv):
     """Tie with the quiescence requirement (`fvdrv_chan --liveness`): a history that ended in a deadlock must
@@ -170,6 +170,9 @@ def liveness_tie(ctx, name, cmd, drv):
         if not sigs:
             keep.append((cid, line)); continue
         fired = {s for c, s, _ in t.monitor_fails if c == cid}
+        # the harness' own liveness monitor already named the defect of this case (its signature is the one judged)
+        if any(prop_of(s) == ctx.prop and any(pr == ctx.prop and re.search(rx, s) for _, pr, rx, _, _ in KNOWN) for s in fired):
+            continue
         for x in mine:
             if x not in fired:
                 t.monitor_fails.append((cid, x, "checker: never-returned operation is enabled in the final state of every linearization (" + line[:160] + ")"))
@@ -179,16 +182,32 @@ def liveness_tie(ctx, name, cmd, drv):
     return classify(ctx, t)
 
 def layer_b(ctx, mods):
-    """Step-level (layer B) obligations and atomic-action ties of the lock-free cores, provided by other modules."""
+    """Step-level (layer B) obligations and atomic-action ties of the lock-free cores, provided by other modules
+    (each exposes THEOREMS (+ MODULE) or obligations(ctx), and tie(ctx)).  They are included in the thorough tier
+    (or with VERIF_CHAN_LAYERB=1): their Lean modules and trace ties take many minutes.  Their monitor lines are
+    filtered like ours: only signatures of the property being checked are judged here."""
     import importlib
+    if ctx.quick and os.environ.get("VERIF_CHAN_LAYERB", "0") != "1":
+        ctx.notes.append("layer-B modules (%s) not included in the quick tier; run --tier thorough or set VERIF_CHAN_LAYERB=1" % ", ".join(mods))
+        return
     for mod in mods:
         p = os.path.join(VERIF, "props", mod + ".py")
         if not os.path.exists(p):
             ctx.notes.append("layer-B module props/%s.py not present yet" % mod); continue
         try:
             m = importlib.import_module(mod)
+            ef = os.path.join(FIND, mod + ".entries.json")
+            if os.path.exists(ef):
+                have = {f["signature"] for f in ctx.known}
+                for e in json.load(open(ef)):
+                    if e.get("property") == ctx.prop and e["signature"] not in have:
+                        ctx.known.append(e)
             if hasattr(m, "obligations"): m.obligations(ctx)
             elif hasattr(m, "THEOREMS") and hasattr(m, "MODULE"): ctx.lean_obligations(m.MODULE, m.THEOREMS)
-            if hasattr(m, "tie"): m.tie(ctx)
+            if hasattr(m, "tie"):
+                n0 = len(ctx.ties)
+                m.tie(ctx)
+                for t in ctx.ties[n0:]:
+                    classify(ctx, t)
         except Exception as e:
             ctx.proof_failures.append({"module": mod, "error": "layer-B module failed", "log": repr(e)[:1500]})
